@@ -11,8 +11,9 @@ CHECKS = {
         'order, signed/unsigned bit-slice interpretation, shift mask, rotate counts and div/rem guard-to-trap structure of the '
         'specification row, the right stack effect and a declared result slot. Decides the per-instruction translation for all operand '
         'values; exhaustive over the finite dispatch table.',
-   note='Trusted: clang typing and macro expansion, C integer semantics of the host compiler. Not decided: non-builtin clz/ctz/popcnt '
-        'fallback arithmetic; composition over nestings (C03 decides the inductive steps).',
+   note='Trusted: clang typing and macro expansion, C integer semantics of the host compiler. The portable (no-builtin) clz/ctz/popcnt '
+        'functions are refuted on an operand-pattern grid, not proved for all operands; a template of an unrecognised shape that agrees with the '
+        'specification on the boundary grid leaves the property undecided (exit 2). Not decided: composition over nestings (C03 decides the inductive steps).',
    ref='DESIGN.md 4/C01'),
  'C02': dict(
    technique='partial evaluation per opcode row + typed-template descriptors; exact boundary decision by order abstraction over float breakpoints; finite float-class abstraction for min/max',
